@@ -12,6 +12,25 @@ def _unsup(msg, node=None):
     raise Unsupported('%s (line %s)' % (msg, getattr(node, 'lineno', '?')))
 
 
+def _mentions(f, ids):
+    """does the term DAG f contain one of the constants with the given ids? (iterative, each node once)"""
+    seen = set()
+    todo = [f]
+    while todo:
+        t = todo.pop()
+        i = t.get_id()
+        if i in seen:
+            continue
+        seen.add(i)
+        if i in ids:
+            return True
+        if z3.is_quantifier(t):
+            todo.append(t.body())
+        else:
+            todo.extend(t.children())
+    return False
+
+
 class ExprMixin:
     # ------------------------------------------------------------------ helpers
     def ev1(self, e, st):
@@ -38,6 +57,8 @@ class ExprMixin:
         if k == 'int': return v.z != 0
         if k == 'str': return z3.Length(v.z) > 0
         if k == 'none': return z3.BoolVal(False)
+        if k == 'sized': return v.z > 0
+        if k == 'any': return z3.Function('any_truthy', AnyS, z3.BoolSort())(v.z)
         if k == 'list': return st.llen(v.z) > 0
         if k == 'text': return self.text_len(v.z) > 0
         if k == 'opt':
@@ -128,7 +149,7 @@ class ExprMixin:
         _unsup('not a sequence: %r' % (v.ty,))
 
     def new_list(self, st, elem, arr, n, name='list'):
-        r = st.new_ref(name)
+        r = st.new_ref(name, -1)
         st.lset(r, sort_of(elem), arr, n)
         return SV(TList(elem), r)
 
@@ -485,7 +506,13 @@ class ExprMixin:
                 yield self.slice(v, lo, hi, s, e), s
             return
         for (v, i), s in self.ev_many([e.value, e.slice], st):
-            yield self.index(v, i, s, e), s
+            if not isinstance(v, SeqV) and v.ty.kind == 'obj':
+                m = self.reg.find_method(v.ty.args[0], '__getitem__')
+                if m is None:
+                    _unsup('subscript on %r without __getitem__ contract' % (v.ty,), e)
+                yield from self.apply_contract(m, [v, i], {}, s, e)
+            else:
+                yield self.index(v, i, s, e), s
 
     def clamp(self, i, n):
         j = z3.If(i < 0, n + i, i)
@@ -610,6 +637,11 @@ class ExprMixin:
         if gen.is_async:
             _unsup('async comprehension', gen)
         it = gen.iter
+        if isinstance(it, ast.Name) and it.id in ('INT', 'STR', 'BOOL') and it.id not in st.env:
+            # quantification over a whole sort (spec only)
+            ty = {'INT': INT, 'STR': STR, 'BOOL': BOOL}[it.id]
+            v = fresh(gen.target.id, sort_of(ty))
+            return [v], z3.BoolVal(True), {gen.target.id: SV(ty, v)}, None
         if isinstance(it, ast.Call) and isinstance(it.func, ast.Name) and it.func.id == 'range':
             args = [self.ev1(a, st) for a in it.args]
             lo, hi = (z3.IntVal(0), args[0].z) if len(args) == 1 else (args[0].z, args[1].z)
@@ -658,7 +690,7 @@ class ExprMixin:
         """all(...)/any(...) over a generator expression with pure body -> ForAll / Exists"""
         s2 = st.copy()
         n0 = len(s2.pc)
-        vars_all, guards = [], []
+        vars_all, guards, pats = [], [], []
         was = self.specmode
         self.specmode += 1          # body is evaluated as a formula: no obligations inside quantifiers
         try:
@@ -667,12 +699,29 @@ class ExprMixin:
                 s2.env.update(env)
                 vars_all += vars_
                 guards.append(rng)
-                guards += [self.truthy(self.ev1(c, s2), s2) for c in gen.ifs]
+                for c in gen.ifs:
+                    if isinstance(c, ast.Call) and isinstance(c.func, ast.Name) and c.func.id == 'trig':
+                        # trig(t1, t2, ...): one (multi-)pattern for the quantifier; no logical content
+                        ts = []
+                        for a in c.args:
+                            tv = self.ev1(a, s2)
+                            ts.append(tv.z if not isinstance(tv, z3.ExprRef) else tv)
+                        pats.append(z3.MultiPattern(*ts) if len(ts) > 1 else ts[0])
+                    else:
+                        guards.append(self.truthy(self.ev1(c, s2), s2))
             body = self.truthy(self.ev1(gexp.elt, s2), s2)
         finally:
             self.specmode = was
         sides = s2.pc[n0:]
-        guard = z3.And(*guards, *sides)
+        # side facts that do not mention the bound variables (typing of the objects the body reads) are hoisted out of the quantifier
+        bound = {v.get_id() for v in vars_all}
+        inner = []
+        for f in sides:
+            if _mentions(f, bound):
+                inner.append(f)
+            else:
+                st.assume(f)
+        guard = z3.And(*guards, *inner)
         if universal:
-            return z3.ForAll(vars_all, z3.Implies(guard, body))
-        return z3.Exists(vars_all, z3.And(guard, body))
+            return z3.ForAll(vars_all, z3.Implies(guard, body), patterns=pats)
+        return z3.Exists(vars_all, z3.And(guard, body), patterns=pats)
